@@ -178,8 +178,27 @@ def inject(rng, prog, kind):
         desc = f"single_caller method {q} called from {t1} and {t2}"
     elif kind == "rdep-conflict":
         top = [t for t in tids if a.bodies[t].parent is None]
-        how = rng.choice(["nested-shares-method", "explicit"]) if excl else "explicit"
-        if how == "nested-shares-method":
+        how = rng.choice(["nested-shares-method", "nested-deep", "explicit"]) if excl else "explicit"
+        if how == "nested-deep":
+            # nesting of depth 2-3: the innermost transaction shares an exclusive method with its *direct* parent
+            # (itself a nested transaction), not with the outermost body (seeded change C11-3: the ready dependence
+            # recorded against the outermost body instead of the enclosing one)
+            if not top:
+                return None
+            t = rng.choice(top)
+            m = rng.choice(excl)
+            k = 0
+            while any(f"nn{k + d}" in a.bodies for d in range(3)):
+                k += 1
+            depth = rng.choice([2, 2, 3])
+            inner = ["T", {"id": f"nn{k + depth - 1}", "ready": None, "body": [_new_site(prog, m, rng)], "nested": True}]
+            node = ["T", {"id": f"nn{k + depth - 2}", "ready": None, "body": [_new_site(prog, m, rng), inner], "nested": True}]
+            for d in range(depth - 3, -1, -1):
+                node = ["T", {"id": f"nn{k + d}", "ready": None, "body": [node], "nested": True}]
+            nodes[t][1]["body"].append(node)
+            desc = (f"transaction nn{k + depth - 1} nested {depth} levels deep in {t} calls {m} which its direct parent "
+                    f"nn{k + depth - 2} also calls")
+        elif how == "nested-shares-method":
             if not top:
                 return None
             t = rng.choice(top)
